@@ -5,9 +5,13 @@ pub mod chain;
 pub mod c01;
 pub mod backend;
 pub mod middle;
+pub mod c14;
+pub mod c15;
 pub mod c16;
 pub mod c17;
 pub mod c18;
+pub mod c19;
+pub mod c20;
 
 use crate::json::J;
 use std::collections::{BTreeMap, HashSet};
@@ -141,9 +145,13 @@ pub fn run_prop(ctx: &Ctx, acc: &mut Acc) -> Result<(), String> {
         "C04" => middle::c04(ctx, acc),
         "C05" => middle::c05(ctx, acc),
         "C12" => middle::c12(ctx, acc),
+        "C14" => c14::run(ctx, acc),
+        "C15" => c15::run(ctx, acc),
         "C16" => c16::run(ctx, acc),
         "C17" => c17::run(ctx, acc),
         "C18" => c18::run(ctx, acc),
+        "C19" => c19::run(ctx, acc),
+        "C20" => c20::run(ctx, acc),
         "C06" | "C07" | "C08" | "C09" | "C10" | "C13" => backend::run(ctx, acc),
         other => return Err(format!("unknown property {other}")),
     }
@@ -154,9 +162,13 @@ pub fn replay_prop(prop: &str, payload: &J, acc: &mut Acc) -> Result<(), String>
     match prop {
         "C01" => c01::replay(payload, acc),
         "C02" | "C03" | "C04" | "C05" | "C12" => middle::replay(prop, payload, acc),
+        "C14" => c14::replay(payload, acc),
+        "C15" => c15::replay(payload, acc),
         "C16" => c16::replay(payload, acc),
         "C17" => c17::replay(payload, acc),
         "C18" => c18::replay(payload, acc),
+        "C19" => c19::replay(payload, acc),
+        "C20" => c20::replay(payload, acc),
         "C06" | "C07" | "C08" | "C09" | "C10" | "C13" => backend::replay(prop, payload, acc),
         other => return Err(format!("unknown property {other}")),
     }
